@@ -416,6 +416,96 @@ def spelling_cases(tier, rng):
         add(entry, rng.choice(["none", "zod"]), False, [rng.choice(pool) for _ in range(rng.randint(3, 5))])
     return cases
 
+
+# ---- alternating entry points on one output directory -------------------------------------------------------
+ALT_PATTERNS = [["cli", "cli", "build", "cli", "build", "build"], ["build", "cli", "build", "build", "cli", "cli"],
+                ["cli", "build", "cli", "build"], ["build", "build", "cli", "build"]]
+
+
+def alt_desc(case):
+    d = C.base_project()
+    cfg = d["cfg"]
+    cfg["validation_library"] = case["mode"]
+    cfg["visualize_deps"] = bool(case.get("viz"))
+    if case.get("maps"):
+        # names of project-defined serde types used by commands (User: return type, Status: parameter), a type only
+        # a mapping gives a meaning (DateTime<Utc>), and a name nothing uses
+        cfg["type_mappings"] = {k: v for k, v in (("User", "unknown"), ("Status", "string"), ("DateTime<Utc>", "string"),
+                                                  ("Unused", "number"))[:case["maps"]]}
+    if case.get("cases"):
+        cfg["default_parameter_case"], cfg["default_field_case"] = "snake_case", "camelCase"
+    if case.get("edits"):
+        for e in case["edits"]:
+            d = C.apply_edit(d, e)
+    return d
+
+
+def run_alternation(case):
+    desc = alt_desc(case)
+    obs, steps = [], []
+    with vlib.Sandbox("c14a") as sb:
+        w = C.World(sb, case["pattern"][0], case.get("conf", "cfile"))
+        w.set_desc(desc)
+        for entry in case["pattern"]:
+            w.entry = entry
+            r = w.run()
+            obs.append({"entry": entry, "decision": r["decision"], "rewritten": r["rewritten"], "removed": r["removed"],
+                        "changed_bytes": r["changed_bytes"], "record": w.cache_record(), "text": r["text"][-200:]})
+            steps.append(["run", [[0], list(range(len(desc["cfg"].get("type_mappings") or {})))], False, None])
+    return desc, obs, steps
+
+
+def eval_alternation(cases):
+    res = vlib.pmap(run_alternation, cases)
+    traces = vlib.run_runner("c14-trace", [sx([C.sx_project(d), C.sx_cfg(d["cfg"]), st]) for d, _, st in res])
+    q, idx = [], []
+    for i, (_, obs, _) in enumerate(res):
+        for k, o in enumerate(obs):
+            dec = o["decision"] if o["decision"] in ("no_commands", "up_to_date", "regenerated", "failed") else "failed"
+            q.append(sx([dec, len(set(o["rewritten"]) | set(o["changed_bytes"]) | set(o["removed"]))]))
+            idx.append((i, k))
+    idem = dict(zip(idx, vlib.run_runner("c14-idem", q)))
+    outs = []
+    for i, (case, (d, obs, _), tr) in enumerate(zip(cases, res, traces)):
+        corr = ok = True
+        detail = None
+        for k, (o, mo) in enumerate(zip(obs, tr)):
+            step_corr = o["decision"] == mo[0]
+            # every unchanged re-run, whatever entry point ran before, must touch nothing
+            step_ok = (o["decision"] == "regenerated") if k == 0 else idem[(i, k)] == "true"
+            if (not step_corr or not step_ok) and detail is None:
+                detail = {"step": k, "entry": o["entry"], "previous_entry": obs[k - 1]["entry"] if k else None,
+                          "impl": {x: o[x] for x in ("decision", "rewritten", "removed", "record")},
+                          "previous_record": obs[k - 1]["record"] if k else None, "model": mo[0]}
+            corr &= step_corr
+            ok &= step_ok
+        dd = detail or {}
+        dd["decisions"] = [(o["entry"], o["decision"]) for o in obs]
+        if detail is not None:
+            dd["sources"] = {f["path"]: C.render_rs(f) for f in d["files"]}
+            dd["config"] = C.render_cfg(d["cfg"])
+        outs.append(Outcome(case, corr, ok, detail=dd, nontrivial=True))
+    return outs
+
+
+def alternation_cases(tier, rng):
+    cases = []
+    for pat in ALT_PATTERNS:
+        for conf in ("cfile", "tauri"):
+            for mode in ("none", "zod"):
+                for maps in (0, 1, 2, 4):
+                    for viz in (False, True):
+                        for cs in (False, True):
+                            if tier == "quick" and (viz and cs) and maps in (1,):
+                                continue
+                            cases.append({"pattern": pat, "conf": conf, "mode": mode, "maps": maps, "viz": viz, "cases": cs})
+    edits = ["event_site2", "event_add", "events_off", "channel", "validator", "serde_rename", "cmd_move", "unused_struct", "field_add"]
+    for _ in range(40 if tier == "quick" else 400):
+        cases.append({"pattern": rng.choice(ALT_PATTERNS), "conf": rng.choice(["cfile", "tauri"]), "mode": rng.choice(["none", "zod"]),
+                      "maps": rng.choice([0, 2, 3, 4]), "viz": rng.random() < 0.5, "cases": rng.random() < 0.5,
+                      "edits": rng.sample(edits, rng.randint(1, 3))})
+    return cases
+
 # ---- case sets -------------------------------------------------------------------------------------------
 
 def witnesses():
@@ -510,6 +600,9 @@ def run(rep):
     sc = spelling_cases(rep.tier, rng)
     rep.extra["spelling_cases"] = {"total": len(sc), "by_length": {str(k): sum(1 for c in sc if len(c["seq"]) == k) for k in (2, 3, 4, 5)}}
     rep.add("spelling", eval_spelling(sc))
+    ac = alternation_cases(rep.tier, rng)
+    rep.extra["alternation_cases"] = len(ac)
+    rep.add("alternation", eval_alternation(ac))
 
 
 def replay(rep, payload):
@@ -519,6 +612,8 @@ def replay(rep, payload):
         c = dict(it["case"])
         if it["stream"] == "force":
             rep.add("force", eval_force([c]))
+        elif it["stream"] == "alternation":
+            rep.add("alternation", eval_alternation([c]))
         elif it["stream"] == "spelling":
             rep.add("spelling", eval_spelling([c]))
         else:
